@@ -6,6 +6,24 @@ Every statement quantifies over all 2^64 words / all 2^1024 bitmaps, every `n : 
 position, every `add`, every element width `w` (the Go code instantiates 8/16/32/64), both directions and
 **every** value of the sparse threshold `magic`. The configuration `c` ranges over `Proved` (`B64 = 64`, `L16 = 16`,
 any initial threshold). Membership: `b.getLsbD i` for a word, `mem1024 b i` for a 1024-bit map.
+
+Index — clause of the property statement ↦ theorem(s):
+* "behaves as a set of integers in [0,1023]" ............... `mem1024_range`, `mem_members1024`, `members1024_ascending`, `bitmap_ext`
+* "setting or clearing an in-range index changes membership of exactly that index"
+      `setI32_spec`, `unsetI32_spec`, `setI16_spec`, `unsetI16_spec` (1024-bit), `set64_spec`, `unset64_spec` (64-bit layer)
+* "out-of-range indices (negative or >= 1024) are ignored" .. same four `…_spec` (the `decide (0 ≤ i ∧ i < 1024 ∧ …)` term),
+      `setI32_out_of_range`; 64-bit layer (> 63): `set64_spec`, `unset64_spec`
+* "Len/NLen count members and non-members" ................. `len_nlen`, `nlen_eq` (1024-bit), `len64_spec`, `full64_spec` (64-bit)
+* "And/Or/Reverse/OrThenReverse/Equal are ∩, ∪, complement, complement-of-union, equality"
+      `and_or_rev_equal` (all five), `equal1024_spec`, `orThenReverse_eq`, `reverse_reverse`; 64-bit layer `algebra64`
+* "every iterator, every width, forward or reverse, writes exactly the first min(n, Len) members in ascending (descending)
+   order, each offset by add, starting at pos, and returns that count"
+      `iter64_spec` (Bit64.IterAs*/RIterAs*, all widths), `iter1024_spec` (Bit1024.IterAs*/RIterAs*), `expected_length`
+      (the count), `members_ascending` / `members1024_ascending` (the order), `iter64_no_write`, `iter64_empty`,
+      `iter1024_no_write` (n ≤ 0 / empty word: 0, nothing touched, any pos)
+* "GetN*" (every width, both layers) ........................ `getN64_spec`, `getN1024_spec`, `getN_values`, `getN_negative_panics`
+* "the result does not depend on the sparse/dense traversal threshold"
+      `iter64_threshold_irrelevant`, `iter1024_threshold_irrelevant` (and `magic` is universally quantified in every spec)
 -/
 namespace Nv.C08
 
@@ -169,6 +187,108 @@ theorem iter1024_threshold_irrelevant {w : Nat} (c : Cfg) (hc : Proved c) (m1 m2
 
 example : Proved ⟨9, 64, 16⟩ := by decide
 example : Proved ⟨-5, 64, 16⟩ := by decide
+
+/-! ### calls that have nothing to write (n ≤ 0, or an empty word) return 0 and touch nothing — for *any* `pos` -/
+
+theorem denseLoop_stop {w : Nat} (add : BitVec w) (n : Int) (l : Nat) (hn : n ≤ 0) :
+    ∀ (idxs : List Nat) (st : St w), (∀ i ∈ idxs, i < 64) → st.c = 0 →
+      ∃ st', denseLoop add n l idxs st = some st' ∧ st'.s = st.s ∧ st'.c = 0
+  | [], st, _, hc => ⟨st, rfl, rfl, hc⟩
+  | i :: is, st, hlt, hc => by
+    unfold denseLoop
+    split
+    · have : ((st.c : Int) ≥ n ∨ st.c ≥ l) := Or.inl (by omega)
+      exact ⟨st, by simp [this], rfl, hc⟩
+    · exact denseLoop_stop add n l hn is st (fun j hj => hlt j (by simp [hj])) hc
+
+theorem sparseLoop_stop {w : Nat} (rev : Bool) (add : BitVec w) (n : Int) (l : Nat) (hn : n ≤ 0) (fuel : Nat) (st : St w)
+    (hc : st.c = 0) : ∃ st', sparseLoop rev add n l fuel st = some st' ∧ st'.s = st.s ∧ st'.c = 0 := by
+  cases fuel with
+  | zero => exact ⟨st, rfl, rfl, hc⟩
+  | succ fuel =>
+    unfold sparseLoop
+    split
+    · exact ⟨st, rfl, rfl, hc⟩
+    · have : ((st.c : Int) ≥ n ∨ st.c ≥ l) := Or.inl (by omega)
+      exact ⟨st, by simp [this], rfl, hc⟩
+
+/-- `n ≤ 0` (negative counts included): every 64-bit iterator returns 0 and leaves the slice alone, whatever `pos` is -/
+theorem iter64_no_write {w : Nat} (magic : Int) (rev : Bool) (b : Bit64) (s : List (BitVec w)) (pos : Int)
+    (add : BitVec w) (n : Int) (hn : n ≤ 0) : iter64 magic rev b s pos add n = some (s, 0) := by
+  unfold iter64
+  simp only
+  split
+  · rfl
+  · split
+    · obtain ⟨st', h, hs, hc⟩ := denseLoop_stop add n (len64 b) hn (order rev) ⟨s, pos, 0, b⟩ order_lt rfl
+      rw [h]; simp [hs, hc]
+    · obtain ⟨st', h, hs, hc⟩ := sparseLoop_stop rev add n (len64 b) hn 64 ⟨s, pos, 0, b⟩ rfl
+      rw [h]; simp [hs, hc]
+
+/-- an empty word: 0, slice untouched, for any `n` and `pos` -/
+theorem iter64_empty {w : Nat} (magic : Int) (rev : Bool) (s : List (BitVec w)) (pos : Int) (add : BitVec w) (n : Int) :
+    iter64 magic rev 0#64 s pos add n = some (s, 0) := by
+  have : len64 0#64 = 0 := by decide
+  simp [iter64, this]
+
+/-- `n ≤ 0`: every 1024-bit iterator returns 0 at once (`iterN >= n` before the first word) -/
+theorem iter1024_no_write {w : Nat} (c : Cfg) (magic : Int) (rev : Bool) (b : Bit1024) (s : List (BitVec w)) (pos : Int)
+    (add : BitVec w) (n : Int) (hn : n ≤ 0) : iter1024 c magic rev b s pos add n = some (s, 0) := by
+  unfold iter1024
+  cases wordsOf c rev b with
+  | nil => rfl
+  | cons p rest =>
+    obtain ⟨wd, k⟩ := p
+    unfold chain
+    have : ((0 : Nat) : Int) ≥ n := by omega
+    rw [if_pos this]
+
+/-! ### remaining named operations -/
+
+/-- `Bit64.Full` -/
+theorem full64_spec (b : Bit64) : full b = true ↔ ∀ i, i < 64 → b.getLsbD i = true := by
+  unfold full
+  constructor
+  · intro h i hi
+    have : b = ~~~(0#64) := by simpa using h
+    rw [this, BitVec.getLsbD_not]; simp [hi]
+  · intro h
+    have : b = ~~~(0#64) := by
+      apply BitVec.eq_of_getLsbD_eq
+      intro i hi
+      rw [h i hi, BitVec.getLsbD_not]; simp [hi]
+    rw [this]; rfl
+
+/-- `Bit64.NLen` / `Bit1024.NLen` as complements of `Len` -/
+theorem nlen_eq (b : Bit64) (m : Bit1024) :
+    nlen64 b = 64 - (members b).length ∧ nlen1024 m = 1024 - (members1024 m).length := by
+  simp [nlen64, nlen1024, len64_eq, len1024_eq]
+
+/-- `Equal` is equality of the member sets -/
+theorem equal1024_spec (a b : Bit1024) : equal1024 a b = true ↔ ∀ j, j < 1024 → mem1024 a j = mem1024 b j := by
+  rw [equal1024_iff]
+  exact ⟨fun h _ _ => by rw [h], ext1024 a b⟩
+
+/-- `OrThenReverse` is the complement of the union, as a bitmap equation -/
+theorem orThenReverse_eq (a b : Bit1024) : orThenReverse1024 a b = reverse1024 (or1024 a b) := by
+  apply ext1024
+  intro j hj
+  rw [orThenReverse1024_mem a b j hj, reverse1024_mem _ j hj, or1024_mem]
+
+/-- complement twice, and De Morgan, as corollaries of the membership laws -/
+theorem reverse_reverse (a : Bit1024) : reverse1024 (reverse1024 a) = a := by
+  apply ext1024
+  intro j hj
+  rw [reverse1024_mem _ j hj, reverse1024_mem _ j hj]; simp
+
+/-- `GetNAs{I8,I16,I32,I64}` / `RGetNAs…` of `Bit64` and `GetNAs{I16,I32,I64}` of `Bit1024`, every width at once:
+    the values are the first `min(n, Len)` members themselves (offset 0), converted to the element type -/
+theorem getN_values {w : Nat} (rev : Bool) (ms : List Nat) (n : Int) :
+    expected rev ms (0 : BitVec w) n = ((if rev then ms.reverse else ms).take n.toNat).map (BitVec.ofNat w) := by
+  unfold expected
+  apply List.map_congr_left
+  intro i _
+  simp
 
 /-! ### GetN: allocate `n` cells, iterate from 0 with `add = 0`, return the written prefix (nil when empty) -/
 
